@@ -1,0 +1,30 @@
+//go:build verif
+
+// Verification hook (build tag "verif"): lets the /verif correspondence harness hold a
+// connection between its upgrade to a WebSocket and its hand-over to the listener's
+// accept queue.  Not part of the normal build.
+
+package ws
+
+import (
+	"sync/atomic"
+
+	"github.com/gorilla/websocket"
+)
+
+var verifUpgradedHook atomic.Value // func(remoteAddr string)
+
+// VerifSetUpgradedHook installs (or, with nil, removes) a function called by the http
+// handler goroutine right after a connection was upgraded, before the listener queues it.
+func VerifSetUpgradedHook(f func(remoteAddr string)) {
+	if f == nil {
+		f = func(string) {}
+	}
+	verifUpgradedHook.Store(f)
+}
+
+func verifUpgraded(c *websocket.Conn) {
+	if f, ok := verifUpgradedHook.Load().(func(string)); ok && f != nil {
+		f(c.RemoteAddr().String())
+	}
+}
